@@ -320,6 +320,7 @@ def lstStep (s : St) (op : String) (a : List Int) : St × String :=
     | none => (s, "mem")
     | some p => setP s (n i) (PL.erase h (getP s (n i)) p)
   | "splice", [i, pidx, j, sidx] =>
+    if i = j then setP s (n i) (PL.pmove h (getP s (n i)) (n pidx) (n sidx)) else
     match posAt h (getP s (n i)) (n pidx), (PL.nodesOf h (getP s (n j)))[n sidx]? with
     | some p, some t => setP s (n i) (PL.splice h (getP s (n i)) p t)
     | _, _ => (s, "mem")
